@@ -167,3 +167,12 @@ Proof.
     + intros [Hm Hp]. split; [destruct p; discriminate | exact Hm].
     + intros [Hp Hm]. split; [exact Hm | destruct p; [congruence | reflexivity]].
 Qed.
+
+(* ---- word-level: iterated derivatives decide membership and viability --------------------- *)
+Lemma derivs_matches r w : nullable (derivs w r) = true <-> matches r w.
+Proof. rewrite nullable_spec, derivs_spec, app_nil_r. reflexivity. Qed.
+
+Lemma derivs_viable r w : nonempty (derivs w r) = true <-> viable r w.
+Proof.
+  rewrite nonempty_spec. unfold viable. split; intros [k Hk]; exists k; apply derivs_spec; exact Hk.
+Qed.
